@@ -215,7 +215,28 @@ def run(ctx):
             ctx.violation(Finding('R-EDGEPAIR', RP, 'PseudoNetCDFFile.val2idx', ends['isright'][2], 'the left limit is %s[%s] but the right limit is %s[%s]: values between the last centre and the last edge '
                                   'are reported (or rejected) as out of range although they lie inside the domain' % (ends['isleft'][0], ends['isleft'][1], ends['isright'][0], ends['isright'][1])))
     else:
-        ctx.undec('R-EDGEPAIR', 'range tests', w17, 'isleft/isright not in the recognised form')
+        # limits held in names: where were they read?  The direction test reverses a descending edge array in place (dimevals =
+        # dimevals[::-1]); limits read before that are the wrong way round for a descending coordinate
+        lim = {}
+        for st in iter_stmts(v2.body):
+            if isinstance(st, ast.Assign) and isinstance(st.targets[0], ast.Name) and st.targets[0].id in ('isleft', 'isright') and isinstance(st.value, ast.Compare) \
+                    and isinstance(st.value.comparators[0], ast.Name):
+                lim[st.targets[0].id] = (st.value.comparators[0].id, st)
+        revs = [st for st in iter_stmts(v2.body) if isinstance(st, ast.Assign) and isinstance(st.value, ast.Subscript) and isinstance(st.value.slice, ast.Slice)
+                and st.value.slice.step is not None and norm(st.value.slice.step) == '-1' and norm(st.targets[0]) == norm(st.value.value)]
+        early = None
+        for side, (nm_, st_) in lim.items():
+            for d_ in iter_stmts(v2.body):
+                if isinstance(d_, ast.Assign) and d_.lineno < st_.lineno:
+                    tg = d_.targets[0]
+                    names_ = [tg.id] if isinstance(tg, ast.Name) else [e.id for e in tg.elts if isinstance(e, ast.Name)] if isinstance(tg, ast.Tuple) else []
+                    if nm_ in names_ and revs and d_.lineno < min(r_.lineno for r_ in revs) and any(isinstance(x, ast.Subscript) for x in ast.walk(d_.value)):
+                        early = (nm_, d_)
+        if len(lim) == 2 and early:
+            ctx.violation(Finding('R-EDGEPAIR', RP, 'PseudoNetCDFFile.val2idx', early[1], 'the out-of-range limit %s is read before a descending edge array is reversed (%s): for a descending coordinate the '
+                                  'left and right limits are swapped and every value inside the domain is reported out of range' % (early[0], norm(revs[0])[:40])))
+        else:
+            ctx.undec('R-EDGEPAIR', 'range tests', w17, 'isleft/isright not in the recognised form')
     srt = [c for c in ast.walk(v2) if isinstance(c, ast.Call) and dotted(c.func) in ('np.unique', 'sorted', 'set', 'np.union1d') and c.args
            and any(isinstance(n, ast.Name) and n.id in ('dimbv', 'dimvals', 'dimevals', 'dimv') for n in ast.walk(c.args[0]))]
     if srt:
@@ -223,6 +244,43 @@ def run(ctx):
                               'direction test, and edges equal only up to round-off are counted twice' % norm(srt[0])[:40]), oid='sorted edges')
     else:
         ctx.ok('R-EDGEPAIR', 'edge order', w17, 'no sorting/merging of coordinate or edge values')
+    # ---- R-BOUNDSBREAK: a bounds variable that was found is final - the loop over candidate names is left, so its else clause (the
+    # approximation from the centres) cannot replace the edges that were read
+    ctx.rule('R-BOUNDSBREAK', 'val2idx: every path of the candidate loop that takes edges from a bounds variable leaves the loop (the else clause approximates edges only when none was found)')
+    bl = [st for st in iter_stmts(v2.body) if isinstance(st, ast.For) and st.orelse and any(isinstance(x, ast.Break) for x in ast.walk(st))
+          and any(isinstance(s2, ast.Assign) and norm(s2.targets[0]) == 'dimevals' for s2 in iter_stmts(st.body))]
+    if not bl:
+        ctx.undec('R-BOUNDSBREAK', 'candidate loop', w17, 'loop over the bounds-variable names with an else clause not found')
+    else:
+        nbp, badp = 0, None
+        for pth in _paths.enumerate_paths(bl[0].body, limit=5000):
+            stores = [st for st in pth.stmts if isinstance(st, ast.Assign) and norm(st.targets[0]) == 'dimevals']
+            if not stores or pth.exit[0] == 'raise':
+                continue
+            nbp += 1
+            if pth.exit[0] != 'break':
+                badp = badp or stores[-1]
+        overw = any(isinstance(s2, ast.Assign) and norm(s2.targets[0]) == 'dimevals' for o in bl[0].orelse for s2 in ast.walk(o))
+        if badp is not None and overw:
+            ctx.violation(Finding('R-BOUNDSBREAK', RP, 'PseudoNetCDFFile.val2idx', badp, 'edges are taken from a bounds variable (%s) on a path that does not leave the candidate loop: the loop runs out, its '
+                                  'else clause approximates the edges from the centres and replaces the ones that were read' % norm(badp)[:50]))
+        elif nbp:
+            ctx.ok('R-BOUNDSBREAK', 'candidate loop', w17, '%d edge-taking paths, all end in break' % nbp)
+        else:
+            ctx.undec('R-BOUNDSBREAK', 'candidate loop', w17, 'no path stores the edges')
+    # ---- R-QUERYDTYPE: the requested values keep their own type (an integer coordinate must not truncate a fractional request)
+    ctx.rule('R-QUERYDTYPE', "val2idx: the requested values are not converted to the coordinate's dtype")
+    par0 = [a.arg for a in v2.args.args][2] if len(v2.args.args) > 2 else 'val'
+    conv = [c for c in ast.walk(v2) if isinstance(c, ast.Call) and ((dotted(c.func) or '').split('.')[-1] in ('asarray', 'array', 'asanyarray') and c.args and norm(c.args[0]) == par0
+                                                                     or (isinstance(c.func, ast.Attribute) and c.func.attr == 'astype' and norm(c.func.value) == par0))]
+    badc = [c for c in conv if any('.dtype' in norm(a) for a in list(c.args[1:] if (dotted(c.func) or '').split('.')[-1] != 'astype' else c.args) + [k.value for k in c.keywords])]
+    if badc:
+        ctx.violation(Finding('R-QUERYDTYPE', RP, 'PseudoNetCDFFile.val2idx', api.stmt_of(badc[0]), 'the requested values are converted with %s: for an integer coordinate every request loses its fraction '
+                              'before the lookup (nearest neighbour, cell and exact membership are decided for the truncated value)' % norm(badc[0])[:60]))
+    elif conv:
+        ctx.ok('R-QUERYDTYPE', 'val', w17, '%d conversions of %s, none with a dtype taken from the coordinate' % (len(conv), par0))
+    else:
+        ctx.undec('R-QUERYDTYPE', 'val', w17, 'no array conversion of the request found')
     # ---- R-EDGECLAMP: method='bounds': the interpolated cell index is clamped to the last cell *after* the interpolation
     ctx.rule('R-EDGECLAMP', "val2idx(method='bounds'): a value on the closing edge (index n on the edge axis) is clamped to cell n-1 after np.interp")
     nb, unclamped, clamped = 0, None, None
